@@ -68,11 +68,15 @@ pub fn proxy_handler(
     }
 
     // Return error 403 if the address was blacklisted
-    if state
-        .config
-        .blacklist
-        .list
-        .contains(&request.address.origin_addr)
+    // Neither the address the request claims to originate from nor the address it was actually sent from
+    //   (the last of the proxies when the request carries `X-Forwarded-For`) may be blacklisted
+    let blacklist = &state.config.blacklist.list;
+    if blacklist.contains(&request.address.origin_addr)
+        || request
+            .address
+            .proxies
+            .last()
+            .map_or(false, |peer| blacklist.contains(peer))
     {
         state.logger.warn(format!(
             "{}: Blacklisted IP attempted to request {}",
